@@ -54,6 +54,33 @@ impl BKnobs {
 const EDGE_CSIDS: [u32; 14] = [2, 3, 4, 5, 6, 63, 64, 65, 319, 320, 321, 65598, 65599, 7];
 
 fn draw_csid(ctx: &mut Ctx, k: &BKnobs, avoid: &[u32]) -> u32 {
+    // while other chunk streams have a message in flight, sometimes pick an id that a sloppy
+    // decoder could confuse with one of them: off by a byte carry (+-256, +-512), by the 64
+    // offset, equal in the low 6 / 8 bits, or with swapped id bytes
+    if !avoid.is_empty() && k.csid_mode != 0 && ctx.ch.chance("op.arg.csidalias", 1, 4) {
+        let base = avoid[ctx.ch.draw("op.arg.csidbase", avoid.len() as u64) as usize];
+        let cands: Vec<u32> = [
+            base.wrapping_add(256),
+            base.wrapping_sub(256),
+            base.wrapping_add(512),
+            base.wrapping_add(64),
+            base.wrapping_sub(64),
+            base & 63,
+            base & 255,
+            (base & 63) + 64,
+            64 + (((base.wrapping_sub(64)) & 0xFF) << 8 | ((base.wrapping_sub(64)) >> 8) & 0xFF),
+            base ^ 0x100,
+            base.wrapping_add(65536 - 64),
+        ]
+        .iter()
+        .copied()
+        .filter(|c| *c >= 2 && *c <= 65599 && !avoid.contains(c))
+        .collect();
+        if !cands.is_empty() {
+            ctx.probe("b.csid_alias_candidate");
+            return cands[ctx.ch.draw("op.arg.csidcand", cands.len() as u64) as usize];
+        }
+    }
     for _ in 0..8 {
         let c = match k.csid_mode {
             0 => 3 + ctx.ch.draw("op.arg.csid", 4) as u32,
